@@ -7640,9 +7640,9 @@ impl<V: Introspect, const C: usize> Introspect for arrayvec::ArrayVec<V, C> {
 
 #[cfg(feature = "arrayvec")]
 impl<V: Packed, const C: usize> Packed for arrayvec::ArrayVec<V, C> {
-    unsafe fn repr_c_optimization_safe(version: u32) -> IsPacked {
-        V::repr_c_optimization_safe(version)
-    }
+    // An ArrayVec is never itself packed: its memory consists of a length field and
+    // a (partly uninitialised) buffer, while it is serialized as a 64-bit length
+    // followed by the initialised items only.
 }
 
 #[cfg(feature = "arrayvec")]
